@@ -96,6 +96,17 @@ FLAVOURS[14] = ("This round, write a HARDENING pull request (5-40 changed lines,
                 "or 'repairs' an input in a way that changes its meaning. The break of the property must come from that, must need "
                 "something specific to manifest, and must differ in mechanism from the earlier changes listed above.")
 
+FLAVOURS[15] = ("This round, write a small FEATURE pull request (8-60 changed lines, 'commit_message' in meta.json) that lifts a limitation "
+                "or adds support for something the tool refuses or ignores today - read README.md, README.decb-to-b09.md, the "
+                "grammar and the decoders' option lists for candidates (one more statement form or spelling, one more option or "
+                "option value, one more file-format variant, one more operand shape, a convenience default, a new command-line "
+                "flag that is plumbed through two or three layers). The feature works for the case its author tested. The break of "
+                "the property must come from how the new code path interacts with an EXISTING one - an old construct now parses "
+                "through the new rule, a default changed for existing callers, a shared helper got a new parameter whose default is "
+                "wrong for one old caller, ordered alternatives shadow each other, an option is plumbed to one layer but not the "
+                "next - must need something specific to manifest, and must differ in mechanism from the earlier changes listed "
+                "above.")
+
 
 def main():
     rnd, outdir = int(sys.argv[1]), sys.argv[2]
